@@ -12,6 +12,7 @@ import (
 	"fmt"
 	"net"
 	"os"
+	"strconv"
 	"strings"
 	"sync/atomic"
 	"time"
@@ -394,11 +395,19 @@ func scenDurations(st *ekit.Stats, tier string) {
 		})},
 	}
 	var jobs []func()
-	for _, m := range makers {
-		for _, v := range vals {
+	for mi, m := range makers {
+		mvals := vals
+		// bare integers are decimal seconds whatever they look like: "08" is eight seconds (not a
+		// malformed octal number) and "010" is ten (not eight)
+		if tier == "thorough" {
+			mvals = append(append([]string{}, vals...), "08", "010")
+		} else if mi == 0 || mi == 8 {
+			mvals = append(append([]string{}, vals...), "08")
+		}
+		for _, v := range mvals {
 			m, v := m, v
 			jobs = append(jobs, func() {
-				secs := int(v[0] - '0')
+				secs, _ := strconv.Atoi(v)
 				check := func() (string, string, bool) {
 					life, hung, args, herr, info := m.run(v)
 					in := "macat " + shq(args)
